@@ -430,11 +430,13 @@ pub fn run(tier: Tier) -> Report {
     {
         let n_procs = 150;
         let n_reqs = tier.pick(70, 300);
-        let (bad, out_bytes) = eval_slow_reader(n_procs, n_reqs);
+        for graceful in [true, false] {
+        let (bad, out_bytes) = eval_slow_reader(n_procs, n_reqs, graceful);
         execs.fetch_add(1, Ordering::Relaxed);
-        parts.push(json!({"part": "slow-reader", "requests": n_reqs, "response_bytes": out_bytes, "reader_delay_ms": 1000, "reader_pace": "2 KiB / 5 ms", "failing": bad.is_some() as u32}));
+        parts.push(json!({"part": "slow-reader", "requests": n_reqs, "response_bytes": out_bytes, "reader_delay_ms": 1000, "reader_pace": "2 KiB / 5 ms", "ends_with_shutdown": graceful, "failing": bad.is_some() as u32}));
         if let Some((k, d)) = bad {
-            fails.push(mk(format!("ordering:binary:slow-reader:{}", k), d, json!({"slow_reader": {"procedures": n_procs, "requests": n_reqs, "delay_ms": 1000}, "mode": "process"})));
+            fails.push(mk(format!("ordering:binary:slow-reader:{}{}", k, if graceful { "" } else { ":exit-without-shutdown" }), d, json!({"slow_reader": {"procedures": n_procs, "requests": n_reqs, "delay_ms": 1000, "graceful": graceful}, "mode": "process"})));
+        }
         }
     }
     rep.states = all.len() as u64 + bursts.len() as u64;
@@ -484,17 +486,19 @@ pub fn run(tier: Tier) -> Report {
 }
 
 /// a slow client (see run()): Some((kind, detail)) on failure, and the number of output bytes
-pub fn eval_slow_reader(n_procs: usize, n_reqs: usize) -> (Option<(String, String)>, usize) {
+pub fn eval_slow_reader(n_procs: usize, n_reqs: usize, graceful: bool) -> (Option<(String, String)>, usize) {
     let text: String = (0..n_procs).map(|i| format!("proc p{}() {{\n}}\n", i)).collect();
     let mut s = Session::new(true);
     s.open(URIS[0], &text);
     let ids: Vec<i64> = (0..n_reqs).map(|_| s.request(METHODS[0], req_params(METHODS[0], URIS[0]))).collect();
-    s.msgs.push(request(100_000, "shutdown", Value::Null));
+    if graceful {
+        s.msgs.push(request(100_000, "shutdown", Value::Null));
+    }
     s.msgs.push(notification("exit", Value::Null));
     let bytes: Vec<u8> = s.msgs.iter().flat_map(frame).collect();
     let o = procdrv::run_slow_reader(bytes, Duration::from_millis(1000), Some((2048, Duration::from_millis(5))), Duration::from_secs(60));
     let answered: Vec<i64> = o.frames.iter().filter(|f| f.get("method").is_none()).filter_map(|f| f["id"].as_i64()).collect();
-    let want: Vec<i64> = std::iter::once(0).chain(ids.iter().cloned()).chain(std::iter::once(100_000)).collect();
+    let want: Vec<i64> = std::iter::once(0).chain(ids.iter().cloned()).chain(if graceful { Some(100_000) } else { None }).collect();
     let full = o.frames.iter().filter(|f| f.get("method").is_none() && f["result"].as_array().map(|a| a.len() == n_procs).unwrap_or(false)).count();
     let bad = if o.timed_out {
         Some(("hang".to_string(), "no exit within 60 s after the client started to read".to_string()))
@@ -504,7 +508,7 @@ pub fn eval_slow_reader(n_procs: usize, n_reqs: usize) -> (Option<(String, Strin
         Some(("responses".to_string(), format!("{} of {} responses arrived (ids in order: {})", answered.len(), want.len(), answered.iter().zip(&want).all(|(a, b)| a == b))))
     } else if full != n_reqs {
         Some(("answers".to_string(), format!("{} of {} fold answers list all {} procedures", full, n_reqs, n_procs)))
-    } else if o.exit_code != Some(0) {
+    } else if o.exit_code != Some(if graceful { 0 } else { 1 }) {
         Some(("exit-status".to_string(), format!("{:?}", o.exit_code)))
     } else {
         None
@@ -514,7 +518,7 @@ pub fn eval_slow_reader(n_procs: usize, n_reqs: usize) -> (Option<(String, Strin
 
 pub fn replay(case: &Value) -> Vec<Failure> {
     if let Some(sr) = case.get("slow_reader") {
-        let (bad, _) = eval_slow_reader(sr["procedures"].as_u64().unwrap_or(150) as usize, sr["requests"].as_u64().unwrap_or(150) as usize);
+        let (bad, _) = eval_slow_reader(sr["procedures"].as_u64().unwrap_or(150) as usize, sr["requests"].as_u64().unwrap_or(150) as usize, sr["graceful"].as_bool().unwrap_or(true));
         return bad.map(|(k, d)| vec![Failure { key: format!("ordering:binary:slow-reader:{}", k), case: case.clone(), detail: d }]).unwrap_or_default();
     }
     let sc: Vec<Op> = if let Some(n) = case.get("burst").and_then(|v| v.as_u64()) {
